@@ -1033,6 +1033,24 @@ def _table_columns(seed, only=None):
                                  "the parent (%s)" % (r["name"], r["Thalf_parent"], rows[j]["Thalf_hrs"] if j >= 0 else None,
                                                       rows[j]["name"] if j >= 0 else "no such row"),
                          "input": inp, "observed": r["Thalf_parent"], "expected": rows[j]["Thalf_hrs"] if j >= 0 else None})
+    # every row states its half-life twice as well: value + unit (columns 9, 10) and the same in hours (column 18, the one the
+    # calculation uses): they must agree (1 y = 8760 h in this table)
+    HOURS = {"s": 1 / 3600.0, "m": 1 / 60.0, "h": 1.0, "d": 24.0, "y": 8760.0}
+    for r in rows:
+        inp = {"table": "activation.dat", "Z": r["Z"], "A": r["A"], "field": "half_life_hours", "row": r["name"]}
+        if only is not None and only != inp:
+            continue
+        evaluations += 1
+        distinct += 1
+        try:
+            listed = float(r["_Thalf"]) * HOURS[str(r["_Thalf_unit"]).strip()]
+        except (KeyError, ValueError, TypeError):
+            listed = None
+        if listed is None or abs(r["Thalf_hrs"] - listed) > 1e-4 * abs(listed):
+            viol.append({"key": "table_columns:half_life_hours:%s" % r["name"],
+                         "what": "row %s: the half-life in hours (%r, used by the calculation) is not the listed half-life %s %s"
+                                 % (r["name"], r["Thalf_hrs"], r["_Thalf"], r["_Thalf_unit"]),
+                         "input": inp, "observed": r["Thalf_hrs"], "expected": listed})
     for label, table in _tables(seed):
         n_rec = 0
         for (Z, A) in order:
